@@ -200,19 +200,21 @@ class Effects:
             if not (isinstance(n.target, ast.Tuple) and len(n.target.elts) == 2 and all(isinstance(e, ast.Name) for e in n.target.elts)):
                 continue
             fvar, vvar = n.target.elts[0].id, n.target.elts[1].id  # type: ignore
-            if any(isinstance(x, (ast.Break, ast.Continue, ast.Return)) for x in ast.walk(n)):
+            if any(isinstance(x, (ast.Break, ast.Return)) for x in ast.walk(n)):
                 return False, "list-field copy loop has an early exit"
-            if len(n.body) != 1 or not isinstance(n.body[0], ast.If) or n.body[0].orelse:
-                continue
-            iff = n.body[0]
-            tst = iff.test
-            if not (isinstance(tst, ast.Call) and isinstance(tst.func, ast.Name) and tst.func.id == "isinstance" and len(tst.args) == 2 and isinstance(tst.args[0], ast.Name) and tst.args[0].id == vvar and isinstance(tst.args[1], ast.Name) and tst.args[1].id == "list"):
-                return False, "list fields are copied under a condition other than isinstance(value, list)"
-            for s in iff.body:
-                if isinstance(s, ast.Expr) and isinstance(s.value, ast.Call) and isinstance(s.value.func, ast.Name) and s.value.func.id == "setattr":
-                    a = s.value.args
-                    if len(a) == 3 and isinstance(a[0], ast.Name) and a[0].id == copy_name and isinstance(a[1], ast.Name) and a[1].id == fvar and _is_list_copy(a[2], vvar):
-                        found = True
+            # the re-binding statement, made exactly when the field's value is a list (written as `if isinstance(v, list):
+            # setattr(..)` or as `if not isinstance(v, list): continue` followed by the setattr)
+            from .lib import Facts as _Facts
+
+            for s in [x for x in ast.walk(n) if isinstance(x, ast.Expr) and isinstance(x.value, ast.Call) and isinstance(x.value.func, ast.Name) and x.value.func.id == "setattr"]:
+                a = s.value.args
+                if not (len(a) == 3 and isinstance(a[0], ast.Name) and a[0].id == copy_name and isinstance(a[1], ast.Name) and a[1].id == fvar and _is_list_copy(a[2], vvar)):
+                    continue
+                conds = [(x_, p_) for x_, p_ in _Facts(host_fa, s, expand=False).atoms if any(y_ is x_ or True for y_ in [0]) and any(isinstance(z_, ast.Name) and z_.id in (vvar, fvar) for z_ in ast.walk(x_))]
+                is_list = [(x_, p_) for x_, p_ in conds if isinstance(x_, ast.Call) and isinstance(x_.func, ast.Name) and x_.func.id == "isinstance" and len(x_.args) == 2 and isinstance(x_.args[0], ast.Name) and x_.args[0].id == vvar and isinstance(x_.args[1], ast.Name) and x_.args[1].id == "list" and p_]
+                if len(is_list) != 1 or len(conds) != 1:
+                    return False, "list fields are copied under a condition other than isinstance(value, list)"
+                found = True
             # the loop must run before the delegation on every path
             if found and not host_fa.cfg.dominates(host_fa.cfg.node_of(n), host_fa.cfg.node_of(at_call)):
                 return False, "list-field copy loop does not dominate the delegation"
